@@ -5,21 +5,23 @@ CONSTANTS DstExtra
 \* ---- Dst corpus: every declared size of every variable-length kind ---------------------------------
 DstKinds == {n \in InfoKindNames : InfoKind(n).dst}
 DstSizes(name) == LET K == InfoKind(name) IN 0..(K.base + 3 * K.elem + DstExtra)
-DstParams == UNION { { [kind |-> n, size |-> s] : s \in DstSizes(n) } : n \in DstKinds }
-             \cup { [kind |-> n, size |-> s] : n \in DstKinds, s \in {200, 1000, 16777216} }
+\* v: marker content, or all zeros (counts, strides, versions of zero take other paths through a decoder)
+DstParams == UNION { { [kind |-> n, size |-> s, v |-> v] : s \in DstSizes(n), v \in {0, 2} } : n \in DstKinds }
+             \cup { [kind |-> n, size |-> s, v |-> 0] : n \in DstKinds, s \in {200, 1000, 16777216} }
 \* the tag is given room for min(size, 120) bytes; a size beyond that runs over the neighbour / the region
-DstTag(name, size) ==
+DstTagV(name, size, v) ==
   LET K == InfoKind(name)
       room == RoundUp8(Max(8, Min(size, 120)))
       t == [i \in 1..room |-> IF i <= 4 THEN U32Bytes(K.id)[i] ELSE IF i <= 8 THEN U32Bytes(size)[i - 4]
-                              ELSE IF i <= size THEN FillA(i - 1) ELSE PadByte] IN
+                              ELSE IF i <= size THEN Fill(v, i - 1) ELSE PadByte] IN
   CASE name = "mmap" -> Override(t, 8, U32Bytes(24))
     [] name = "framebuffer" -> IF room > 29 THEN Override(t, 29, <<2>>) ELSE t
     [] name \in {"cmdline", "bootloader", "module"} ->
          [i \in 1..room |-> IF i > K.base /\ i <= size THEN (IF i = size THEN 0 ELSE 97 + (i % 3)) ELSE t[i]]
     [] OTHER -> t
+DstTag(name, size) == DstTagV(name, size, 0)
 DstCase(p) ==
-  [mem |-> InfoImage(<<DstTag(p.kind, p.size), Neighbour>>),
+  [mem |-> InfoImage(<<DstTagV(p.kind, p.size, p.v), Neighbour>>),
    al |-> 0,
    calls |-> <<[op |-> "load"]>> \o ReadCalls(p.kind),
    desc |-> [area |-> "dst"] @@ p]
